@@ -1247,6 +1247,26 @@ def falsify_C20(ctx):
 # ---------------------------------------------------------------------------
 # C07: real ROS 2 analyses vs the executable naive Spec (RTA/Spec/NaiveRos.lean)
 
+def own_demand_steps_with_arrivals(op):
+    """the analysed demand of a ros_tm / ros_pp / ros_ch op is a single RBF with a scalar WCET >= 1
+    (then the demand steps exactly where the arrival curve steps, which is what steps_iter of the
+    request bound enumerates); for zero-cost or multi-frame demands the two notions differ"""
+    t = op.split()
+    i = 1
+    while t[i] == "dflt":
+        i += 1
+    i += {"ded": 1, "psup": 3, "csup": 4}.get(t[i], 99)
+    try:
+        if t[0] == "ros_ch":
+            # last, prefix, full chain: the search space comes from the full chain's demand
+            _, i = parse_rb_flat(t, i)
+            _, i = parse_rb_flat(t, i)
+        own, _ = parse_rb_flat(t, i)
+    except (Unsupported, ValueError, IndexError):
+        return False
+    return len(own) == 1 and own[0][1] >= 1
+
+
 def falsify_C07(ctx):
     rng = random.Random(ctx["seed"] * 7919 + 7)
     n = 1500 if ctx["tier"] == "quick" else 60000
@@ -1258,12 +1278,27 @@ def falsify_C07(ctx):
         t = o.split()
         t[-1] = str(min(int(t[-1]), 70))      # keep the naive evaluation cheap
         ops.append(" ".join(t))
+    # every correspondence disagreement on a ROS 2 analysis op is re-examined against the oracle
+    for d in ((ctx.get("corr") or {}).get("disagreements") or [])[:200]:
+        o = d.get("op", "")
+        if o.split()[:1] and o.split()[0] in ("ros_es", "ros_tm", "ros_pp", "ros_ch", "rr", "bw") and o.split()[-1].isdigit() \
+                and int(o.split()[-1]) <= 400:
+            ops.append(o)
     r = real(ops)
     nv = common.run_parallel(common.lean_bin(), ["nv_" + o for o in ops])
+    # timer / polling point / chain: the implementation examines the step offsets of the analysed
+    # demand only (K2); the Spec restricted to those offsets is what it must equal exactly
+    nvs = common.run_parallel(common.lean_bin(), [("nvs_" + o) if o.split()[0] in ("ros_tm", "ros_pp", "ros_ch") else "skip" for o in ops])
     cex, samples, nontrivial = [], [], set()
     dist = {}
-    for op, a, b in zip(ops, r, nv):
+    for op, a, b, b_steps in zip(ops, r, nv, nvs):
         kind = op.split()[0]
+        if kind in ("ros_tm", "ros_pp", "ros_ch") and b_steps not in ("bad-op", "panic") and a != b_steps and a not in ("panic",) \
+                and own_demand_steps_with_arrivals(op):
+            dist["checked_on_steps"] = dist.get("checked_on_steps", 0) + 1
+            cex.append({"kind": "ros_not_naive_on_steps", "op": op, "impl": a, "naive_on_step_offsets": b_steps,
+                        "naive_all_offsets": b, "analysis": kind, "limit": int(op.split()[-1]), "reasons": op_reasons(op)})
+            continue
         dist[kind] = dist.get(kind, 0) + 1
         if b.startswith("ok") and b != "ok 0":
             nontrivial.add(op)
